@@ -15,7 +15,13 @@ mkdir -p "$BIN" "$OUT/evidence" "$OUT/replays"
 build() { # build <pkg> <out> [flags...]
   local pkg=$1 out=$2; shift 2
   local tmp="$out.$$"
-  (cd "$ROOT/harness" && go build $OVL "$@" -o "$tmp" "$pkg") || { echo "BUILD FAILED: $pkg" >&2; rm -f "$tmp"; exit 2; }
+  if ! (cd "$ROOT/harness" && go build $OVL "$@" -o "$tmp" "$pkg" 2>"$tmp.err"); then
+    # development aid: untracked work-in-progress files of another check must not block this one —
+    # retry with the tracked files only (identical to the normal build once everything is committed)
+    files=$(cd "$ROOT/harness" && git ls-files "$pkg/*.go" | grep -v _test.go)
+    (cd "$ROOT/harness" && go build $OVL "$@" -o "$tmp" $files) || { cat "$tmp.err" >&2; echo "BUILD FAILED: $pkg" >&2; rm -f "$tmp" "$tmp.err"; exit 2; }
+  fi
+  rm -f "$tmp.err"
   mv -f "$tmp" "$out"
 }
 case "$prop" in
